@@ -234,6 +234,8 @@ package resharing
 //@   requires [save-lists-are-not-the-public-key's-coordinate-pair] rsNew(round.ReSharingParameters) ==> (arr(round.save.ECDSAPub.coords) != arr(round.save.NTildej) && arr(round.save.ECDSAPub.coords) != arr(round.save.H1j) && arr(round.save.ECDSAPub.coords) != arr(round.save.H2j))
 //@   modifies round.number, round.started, round.oldOK[*], round.newOK[*], round.save.NTildej[*], round.save.H1j[*], round.save.H2j[*], round.temp.newXi, round.temp.newKs, round.temp.newBigXjs, round.temp.dgRound4Message2s[*], sent(round.out), allfield("crypto.ECPoint", "curve")
 //@   ensures [C04.old-share-intact-before-the-final-round] ecShareIntact(round)
+//@   requires [flag-lists-are-separate] arr(round.oldOK) != arr(round.newOK)
+//@   ensures [C04,C05.no-acknowledgement-is-marked-before-it-arrives] result == nil ==> (forall k in 0..len(round.newOK) :: (round.newOK[k] ==> (rsNew(round.ReSharingParameters) && k == round.ReSharingParameters.Parameters.partyID.Index)))
 //@   site (*crypto.ECPoint).Equals#0 : [C04.the-summed-constant-commitment-is-compared-with-the-announced-public-key] $arg0 == Vc[0] && $arg1 == round.save.ECDSAPub
 //@   loop 0 invariant rsNew(round.ReSharingParameters) && round.started && fresh(paiProofCulprits) && fresh(dlnProof1FailCulprits) && fresh(dlnProof2FailCulprits) && len(paiProofCulprits) == rsNewN(round) && len(dlnProof1FailCulprits) == rsNewN(round) && len(dlnProof2FailCulprits) == rsNewN(round) && arr(paiProofCulprits) != arr(dlnProof1FailCulprits) && arr(paiProofCulprits) != arr(dlnProof2FailCulprits) && arr(dlnProof1FailCulprits) != arr(dlnProof2FailCulprits) && dlnVerifier != nil && wg != nil && h1H2Map != nil && fresh(h1H2Map) && i == round.ReSharingParameters.Parameters.partyID.Index
 //@   loop 0 invariant forall k in 0..$iter :: bitlen(rsNT(round.temp.dgRound2Message1s[k])) == 2048
